@@ -245,15 +245,137 @@ def witnesses(run, drv):
         run.oracle_ok("witness")
 
 
+def witnesses_params(run, drv):
+    """4. TensorDictParams is a container of one tensordict (`_param_td`); with `lock=True` that content is locked before the wrapper.
+    `_propagate_lock` used to skip a content that was locked already: it never registered the wrapper among its lock parents, so the
+    content could be unlocked (and then modified) on its own while the wrapper, or a tensordict that holds it, was locked."""
+    import torch
+    from tensordict import TensorDict
+    from tensordict.nn import TensorDictParams
+    model = parse_sx(drv.ask("(c05.run (ctor () ((a 1 0)) true) (ctor ((params 0)) () true) (unlock 0))"))
+    # (a) the caller keeps the content (`no_convert='skip'`)
+    td = TensorDict({"a": torch.nn.Parameter(torch.zeros(3))}, [])
+    P = TensorDictParams(td, no_convert="skip", lock=True)
+    P.lock_()
+    ps = sorted(type(w()).__name__ for w in td._lock_parents_weakrefs if w() is not None)
+    try:
+        td.unlock_()
+        alone = True
+    except RuntimeError:
+        alone = False
+    run.corr("witness", "params-locked-content", [bool(P.is_locked), ps, alone], [model[1][1][1][1] == "L", ["TensorDictParams"] if list(model[1][1][0][3]) == [1] else [], model[2][0] == "ok"])
+    if alone and P.is_locked:
+        run.oracle_fail("witness", {"program": "td = TensorDict({'a': Parameter}); P = TensorDictParams(td, no_convert='skip', lock=True); P.lock_(); td.unlock_() -> accepted; td['new'] = ... changes the locked P"},
+                        "the content of a locked TensorDictParams(lock=True) was unlocked on its own: it does not list the wrapper among its lock parents", "params-content-unlock")
+    else:
+        run.oracle_ok("witness")
+    # (b) the wrapper inside a locked tree
+    root = TensorDict({"p": TensorDictParams(TensorDict({"a": torch.zeros(3)}, []), lock=True)}, []).lock_()
+    inner = root.get("p")._param_td
+    try:
+        inner.unlock_()
+        alone = True
+    except RuntimeError:
+        alone = False
+    model = parse_sx(drv.ask("(c05.run (ctor () ((a 1 0)) true) (ctor ((params 0)) () false) (ctor ((p 1)) () true) (unlock 0))"))
+    run.corr("witness", "params-locked-content:nested", [alone], [model[3][0] == "ok"])
+    if alone:
+        run.oracle_fail("witness", {"program": "root = TensorDict({'p': TensorDictParams(TensorDict({'a': …}), lock=True)}).lock_(); root['p']._param_td.unlock_() -> accepted"},
+                        "the content of a TensorDictParams(lock=True) held by a locked tensordict was unlocked on its own", "params-content-unlock:nested")
+    else:
+        run.oracle_ok("witness")
+
+
+def witnesses_params_pinned(run):
+    """(c) `TensorDictParams(lock=True)`: the content is locked on its own and `unlock_()` of the wrapper is shallow (real code only: the
+    machine has no shallow unlock).  Expected from the class documentation: the wrapper's lock comes and goes, the content stays locked,
+    a mutator of the unlocked wrapper goes through and leaves the content locked again."""
+    import torch
+    from tensordict import TensorDict
+    from tensordict.nn import TensorDictParams
+    P = TensorDictParams(TensorDict({"a": torch.zeros(3), "n": {"b": torch.zeros(3)}}, []), lock=True)
+    inner = P._param_td
+    facts = {"content locked at construction": bool(inner.is_locked) and not P.is_locked}
+    P.lock_()
+    try:
+        P.set("zz", torch.zeros(3))
+        facts["mutator refused while the wrapper is locked"] = False
+    except RuntimeError:
+        facts["mutator refused while the wrapper is locked"] = "zz" not in inner.keys()
+    P.unlock_()
+    facts["shallow unlock: wrapper unlocked, content and nested still locked"] = (not P.is_locked) and bool(inner.is_locked) and bool(inner.get("n").is_locked)
+    try:
+        inner.set("zz", torch.zeros(3))
+        facts["content refuses a direct write"] = False
+    except RuntimeError:
+        facts["content refuses a direct write"] = True
+    try:
+        P.set("zz", torch.zeros(3))
+        facts["mutator of the unlocked wrapper goes through, content locked again"] = "zz" in inner.keys() and bool(inner.is_locked) and bool(inner.get("n").is_locked)
+    except Exception as e:  # noqa
+        facts["mutator of the unlocked wrapper goes through, content locked again"] = False
+    P.lock_()
+    ps = sorted(type(w()).__name__ for w in inner._lock_parents_weakrefs if w() is not None and w()._is_locked)
+    facts["relocked wrapper is a lock parent of its content"] = ps == ["TensorDictParams"]
+    bad = [k for k, v in facts.items() if not v]
+    if bad:
+        run.oracle_fail("witness", {"program": "P = TensorDictParams(TensorDict({'a': …, 'n': {'b': …}}), lock=True); P.lock_(); P.set(…); P.unlock_(); P._param_td.set(…); P.set(…); P.lock_()"},
+                        f"TensorDictParams(lock=True): {bad}", "params-pinned:" + bad[0][:30])
+    else:
+        run.oracle_ok("witness")
+
+
+def witnesses_views(run, drv):
+    """5. tensordicts without a lock state of their own (`Props.C05.view_lock_frame`): a `_SubTensorDict` reports the lock of its source and
+    its lock_() / unlock_() return iff they are no-ops; a legacy lazy view (`_CustomOpTensorDict`) forwards both to its source."""
+    import torch
+    from tensordict import TensorDict, set_lazy_legacy
+
+    def outcome(f):
+        try:
+            f()
+            return "ok"
+        except RuntimeError as e:
+            return "lock" if "locked graph" in str(e) else "other"
+    for locked in (False, True):
+        td = TensorDict({"a": torch.zeros(2)}, batch_size=[2], lock=locked)
+        sub = td._get_sub_tensordict(0)
+        got = [bool(sub.is_locked), outcome(sub.lock_), bool(td.is_locked), outcome(sub.unlock_), bool(td.is_locked)]
+        model = parse_sx(drv.ask(f"(c05.run (ctor () ((a 1 0)) {'true' if locked else 'false'}) (sublock 0) (subunlock 0))"))
+        m = [model[0][1][0][1] == "L", model[1][0], model[1][1][0][1] == "L", model[2][0], model[2][1][0][1] == "L"]
+        run.corr("witness", f"sub-view-lock:{locked}", got, m)
+    # the legacy lazy views: lock / unlock through the view act on the source, and obey the lock graph of the source
+    with set_lazy_legacy(True):
+        td = TensorDict({"a": torch.zeros(2)}, batch_size=[2])
+        root = TensorDict({"k": td}, batch_size=[2])
+        v = td.unsqueeze(0)
+        ok_type = type(v).__name__
+        got = [outcome(v.lock_), bool(td.is_locked), bool(v.is_locked), outcome(v.unlock_), bool(td.is_locked)]
+        root.lock_()
+        got += [bool(v.is_locked), outcome(v.unlock_), bool(td.is_locked)]
+    model = parse_sx(drv.ask("(c05.run (ctor () ((a 1 0)) false) (ctor ((k 0)) () false) (customlock 0) (customunlock 0) (lock 1) (customunlock 0))"))
+    L = lambda row, i: row[1][i][1] == "L"
+    m = [model[2][0], L(model[2], 0), L(model[2], 0), model[3][0], L(model[3], 0), L(model[4], 0), model[5][0], L(model[5], 0)]
+    run.corr("witness", f"custom-view-lock:{ok_type}", got, m)
+    if got[-2] == "ok":
+        run.oracle_fail("witness", {"program": "td in a locked root; v = td.unsqueeze(0) (legacy lazy view); v.unlock_() -> accepted"},
+                        "a tensordict held by a locked tensordict was unlocked through a lazy view of it", "view-unlock-member")
+    else:
+        run.oracle_ok("witness")
+
+
 def main():
     run = Run("C05")
-    run.rule = ("histories: random event histories over TensorDict / lazy-stack / tensorclass nodes (constructors over existing nodes incl. shared nodes, lock_/unlock_, context managers, "
+    run.rule = ("histories: random event histories over TensorDict / lazy-stack / tensorclass / TensorDictParams-wrapper nodes (constructors over existing nodes incl. shared nodes, lock_/unlock_, context managers, "
                 "pickle round trips, memmap_/share_memory_ (also on lazy roots), drop+gc, 9 mutator effects through 14 public methods, on the node itself or through a nested key given to an ancestor), "
                 "every event a case; sweep: every public callable of 6 container classes on 8 subjects (incl. an unlocked holder of a node shared with a locked root, and a lazy stack over a locked and an "
                 "unlocked member) x synthesised argument variants (+inplace=True where accepted) + hand-written calls for the mutators and the in-place writes that must succeed, on a locked subject and an "
-                "unlocked twin; a case is non-trivial if it is a distinct (history, step) or (class, method, variant)")
+                "unlocked twin (a call refused with the lock error must also leave dimension names / batch size / device as they were; values that carry dimension names are among the hand-written calls); "
+                "a case is non-trivial if it is a distinct (history, step) or (class, method, variant)")
     run.trusted += [
         "Model/C05Lock.lean: hand transcription of the lock code (base.py _propagate_lock/_propagate_unlock/_check_unlock/lock_/unlock_/__setstate__, _lazy.py is_locked/_lock_parents_weakrefs/_propagate_*, _td.py share_memory_/_memmap_, utils.py lock_blocked/_as_context_manager), validated each run by the event-history correspondence",
+        "harness/c05_shapes.py: ast fingerprints of the 35 transcribed lock functions (incl. TensorDictParams, _SubTensorDict, _CustomOpTensorDict, PersistentTensorDict), pinned by Props.C05.transcribed_lock_code: an edit of one of them breaks the obligation",
+        "TensorDictParams is modelled as a container of one tensordict (its content, key `params`): after the repairs its `_propagate_lock` / `_propagate_unlock` are the plain container's; `lock=True` (content locked on its own, kept locked by unlock_) and the mutators of the wrapper (`_unlock_and_set`: unlock the content, call it, lock it again) are exercised by the witness scenarios and the sweep, not by the event machine",
         "harness/c05_gen.py: ast+reflection extraction of the guard table (may-analysis of the call graph: a guarded callee on some path counts); the behavioural sweep checks the paths actually taken",
         "harness/c05_api_classes.json: hand classification of the public API (structural / writer / exempt / lockapi / frame), checked behaviourally on every run",
         "CPython weakref/gc semantics are modelled by explicit liveness (the harness drops and collects deterministically); pickle is decomposed by the harness into constructor events in post-order",
@@ -275,6 +397,9 @@ def main():
         thorough = run.tier == "thorough"
         corpus(run, drv, scratch)
         witnesses(run, drv)
+        witnesses_params(run, drv)
+        witnesses_params_pinned(run)
+        witnesses_views(run, drv)
         if not run.replay:
             histories(run, drv, 4000 if thorough else 300, 32 if thorough else 26, scratch)
         import c05_sweep_run
